@@ -26,7 +26,7 @@ class C05(Prop):
             w = {"bcd": 3, "gd": 1, "pgd": 1, "linear": 1}     # partitions and class LMIs: where lists persist
         plan = gen_session(rng, tier, peer_mode="tagged", nsolves=rng.choice([1, 1, 2, 3] if w is None else [2, 3]),
                            faults=0.45 if w is None else 0.8, weights=w)
-        plan["opts"] = {"oracles": ["delivery", "immut", "alg"]}
+        plan["opts"] = {"oracles": ["delivery", "alg"]}
         return plan
 
 
